@@ -228,3 +228,34 @@ Proof.
   specialize (H _ T_STRING W ltac:(unfold T_STRING; lia)). destruct H as [Hiff _].
   apply Hiff in E. rewrite R in E. discriminate.
 Qed.
+
+(* ---------- FINDING: BufferReader.Skip accepts a container count with the sign bit set ---------- *)
+Definition brskip_is_ref_statement : Prop :=
+  forall S c st t, wf S -> SAt S c st -> t < 256 -> acc_iff_ref (br_extent st t) inl_br t (drop c S).
+
+Lemma br_negative_count tail : len tail = two31 -> wf tail ->
+  let S := 2 :: be 4 two31 ++ tail in
+  let st := new_bytes_reader S (len S) in
+  wf S /\ SAt S 0 st /\ gparse T_LIST S = Err E_NEGSIZE /\ br_extent st T_LIST = Ok (5 + two31).
+Proof.
+  intros Hl W S st.
+  assert (WS : wf S).
+  { unfold S. constructor; [unfold wfb; lia|]. apply wf_app; [apply be_wf|exact W]. }
+  assert (A : SAt S 0 st) by (apply sat_new_bytes_reader; lia).
+  destruct (brskip_negative_count SAt sat_next_ok sat_next_short sat_skip_ok sat_skip_short
+              sat_peek_ok sat_peek_short sat_avail S 0 st two31 tail 63 WS A eq_refl
+              ltac:(split; [lia|apply two31_lt_two32]) Hl) as [G [st' [E Hr]]].
+  change (drop 0 S) with S in G.
+  repeat split; try assumption.
+  unfold br_extent, br_skip. rewrite depth_ok. change 64%nat with (Datatypes.S 63).
+  change T_LIST with 15. rewrite E. rewrite Hr. f_equal; try lia.
+Qed.
+
+Theorem brskip_is_ref_refuted : ~ brskip_is_ref_statement.
+Proof.
+  intros H. destruct big_tail as [tail [Hl Wt]].
+  destruct (br_negative_count tail Hl Wt) as (W & A & G & E).
+  specialize (H _ 0 _ T_LIST W A ltac:(unfold T_LIST; lia)).
+  change (drop 0 (2 :: be 4 two31 ++ tail)) with (2 :: be 4 two31 ++ tail) in H.
+  apply (z_sound _ _ _ _ H) in E as [h [_ G']]. rewrite G in G'. discriminate.
+Qed.
